@@ -1,12 +1,9 @@
 #!/bin/bash
-# seedsweep.sh "<props>" "<seeds>" [tier]: run checks for several seeds, 3 at a time; summary on stdout
+# seedsweep.sh "<props>" "<seeds>" [tier]: every property runs its seeds one after the other (they share an out dir);
+# up to 3 properties run side by side.  One summary line per run on stdout.
 cd /verif
 props="$1"; seeds="$2"; tier="${3:-quick}"
 mkdir -p out/sweep
-run() { p=$1; s=$2; VERIF_SEED=$s ./check $p --tier $tier > out/sweep/$p-$s.log 2>&1; echo "$p seed=$s rc=$? $(grep -c KNOWN out/sweep/$p-$s.log) known; $(grep -E 'VIOLATION|INCONCLUSIVE' out/sweep/$p-$s.log | head -1 | cut -c1-160)"; }
+one() { p=$1; for s in $seeds; do VERIF_SEED=$s ./check $p --tier $tier > out/sweep/$p-$s.log 2>&1; echo "$p seed=$s rc=$? $(grep -c KNOWN out/sweep/$p-$s.log) known; $(grep -E 'VIOLATION|INCONCLUSIVE' out/sweep/$p-$s.log | head -1 | cut -c1-160)"; done; }
 n=0
-for s in $seeds; do for p in $props; do
-  # one property at a time per out dir: different props in parallel only
-  run $p $s &
-  n=$((n+1)); if [ $((n % 3)) -eq 0 ]; then wait; fi
-done; wait; done
+for p in $props; do one $p & n=$((n+1)); if [ $((n % 3)) -eq 0 ]; then wait; fi; done; wait
